@@ -43,22 +43,24 @@ def main():
         rc, o, _ = run(["git", "-C", "/repo", "worktree", "add", "--detach", "-f", wt, "HEAD"])
         assert rc == 0, o
         env = dict(os.environ, PYTHONPATH=wt, OPENBLAS_NUM_THREADS="1")
-        demo = src / "demo.py"
-        shutil.copy(demo, Path(wt) / "_seed_demo.py")
-        rc0, o0, t0 = run([sys.executable, "_seed_demo.py"], cwd=wt, env=env, timeout=1800)
+        # keep the layout the demos were written for: <worktree>/seeded/<name>/demo.py
+        dst = Path(wt) / "seeded" / src.name
+        shutil.copytree(src, dst)
+        demo_rel = str(Path("seeded") / src.name / "demo.py")
+        rc0, o0, t0 = run([sys.executable, demo_rel], cwd=wt, env=env, timeout=1800)
         out["demo_unpatched_exit"] = rc0
-        rc, o, _ = run(["git", "-C", wt, "apply", str(src / "patch.diff")])
+        rc, o, _ = run(["git", "-C", wt, "apply", "--exclude=seeded/*", str(src / "patch.diff")])
         out["patch_applies"] = rc == 0
         if rc != 0:
             out["apply_error"] = o[-500:]
             print(json.dumps(out))
             return 1
-        rc1, o1, t1 = run([sys.executable, "_seed_demo.py"], cwd=wt, env=env, timeout=1800)
+        rc1, o1, t1 = run([sys.executable, demo_rel], cwd=wt, env=env, timeout=1800)
         out["demo_patched_exit"] = rc1
         out["demo_patched_tail"] = o1[-400:]
         out["demo_ok"] = rc0 == 0 and rc1 != 0
         if "--tests" in args:
-            rc, o, t = run([sys.executable, "-m", "pytest", "-q", "-p", "no:cacheprovider", "-n", "16", "--timeout=1800",
+            rc, o, t = run([sys.executable, "-m", "pytest", "-q", "-p", "no:cacheprovider", "-n", os.environ.get("SEED_TEST_WORKERS", "16"), "--timeout=1800",
                             "ghedesigner/tests", "--deselect", "ghedesigner/tests/test_demo_files.py"], cwd=wt, env=env)
             tail = [ln for ln in o.splitlines() if " passed" in ln or " failed" in ln]
             out["tests"] = {"exit": rc, "summary": tail[-1] if tail else o[-300:], "wall_s": round(t)}
